@@ -5,6 +5,7 @@
 package refbind
 
 import (
+	"encoding/json"
 	"encoding/base64"
 	"errors"
 	"fmt"
@@ -156,7 +157,8 @@ func setParam(msg protoreflect.Message, fds []protoreflect.FieldDescriptor, val 
 		}
 		inner := m.Message().Interface()
 		if err := protojson.Unmarshal([]byte(val), inner); err != nil {
-			if err2 := protojson.Unmarshal([]byte(strconv.Quote(val)), inner); err2 != nil {
+			quoted, _ := json.Marshal(val) // (a JSON string; strconv.Quote writes Go escapes that JSON does not have)
+			if err2 := protojson.Unmarshal(quoted, inner); err2 != nil {
 				return fmt.Errorf("%w: %q is not a valid %s", ErrInvalid, val, fd.Message().FullName())
 			}
 		}
